@@ -123,6 +123,55 @@ func checkBatch(c Case) (kind, what string) {
 	return kind, what
 }
 
+// flaky delivers data byte-wise or block-wise and reports one temporary error when position failAt is reached
+type flaky struct {
+	data   []byte
+	pos    int
+	failAt int
+	failed bool
+}
+
+type tempErr struct{}
+
+func (tempErr) Error() string   { return "resource temporarily unavailable" }
+func (tempErr) Temporary() bool { return true }
+func (tempErr) Timeout() bool   { return true }
+
+func (f *flaky) ReadByte() (byte, error) {
+	if f.pos == f.failAt && !f.failed {
+		f.failed = true
+		return 0, tempErr{}
+	}
+	if f.pos >= len(f.data) {
+		return 0, io.EOF
+	}
+	f.pos++
+	return f.data[f.pos-1], nil
+}
+
+func (f *flaky) Read(p []byte) (int, error) {
+	if len(p) == 0 {
+		return 0, nil
+	}
+	if f.pos >= len(f.data) {
+		return 0, io.EOF
+	}
+	n := len(p)
+	if !f.failed && f.failAt >= f.pos && f.failAt < f.pos+n {
+		n = f.failAt - f.pos
+		if n == 0 {
+			f.failed = true
+			return 0, tempErr{}
+		}
+	}
+	if n > len(f.data)-f.pos {
+		n = len(f.data) - f.pos
+	}
+	copy(p, f.data[f.pos:f.pos+n])
+	f.pos += n
+	return n, nil
+}
+
 func be32v(b []byte) uint32 { return binary.BigEndian.Uint32(b) }
 
 func profileWith(h [128]byte) []byte {
@@ -205,6 +254,28 @@ func check(c Case) (kind, what string, nt bool) {
 		}
 		if (rerr == nil) != (rerr4 == nil) || (rerr == nil && !reflect.DeepEqual(p.Header, p4.Header)) {
 			return "reader-dependent", fmt.Sprintf("header decoded from a bufio.Reader of %d bytes that had already delivered %d bytes of the stream differs from the one decoded at offset 0: %v / %v (header %s)", size, prefix, rerr4, rerr, c.Header), true
+		}
+	}
+	// ... and from a source that reports a transient error (one whose Temporary method says true: EINTR, EAGAIN, a
+	// timeout) once, in the middle of the header, and then carries on: the read may fail, but a header that IS
+	// returned must be the right one
+	// (a profile without tags, followed by zero bytes, so that a reader which loses its place still finds a tag
+	// table it can accept)
+	data0 := append(append([]byte(nil), h[:]...), make([]byte, 24)...)
+	for k := 0; k < 3; k++ {
+		at := (int(h[99])*7 + int(h[83])*3 + k*53) % 131
+		var p8 *icc.Profile
+		var rerr8 error
+		if pn, msg := ev.Guard(func() {
+			p8, rerr8 = icc.NewProfileReader(&flaky{data: data0, failAt: at}).ReadProfile()
+		}); pn {
+			return "panic", msg, true
+		}
+		if rerr8 == nil && rerr == nil && !reflect.DeepEqual(p.Header, p8.Header) {
+			return "transient-error", fmt.Sprintf("a source that reported one temporary error at byte %d and then continued: ReadProfile returned no error and a different header (header %s)", at, c.Header), true
+		}
+		if rerr8 == nil && rerr != nil {
+			return "transient-error", fmt.Sprintf("a source that reported one temporary error at byte %d: ReadProfile accepted a header it otherwise rejects (%v) (header %s)", at, rerr, c.Header), true
 		}
 	}
 	// ... and from a ProfileReader that is used more than once: first on a stream that has nothing yet (it reports
